@@ -122,6 +122,17 @@ func hedgeTimingScenarios(prop, tier, extra string) []*Scenario {
 			rec(nil)
 		}
 	}
+	// a delay function whose value varies within one pass (an immediate backup request, then a later second hedge; and the reverse)
+	for _, ds := range [][]time.Duration{{0, 3 * D}, {D, 0}, {3 * D, D}, {0, 0}} {
+		for _, cn := range []string{"default", "result(1)"} {
+			H := Spec{Kind: KHedge, MaxHedges: 2, HDelays: ds, Cancel: conds[cn]}
+			for _, first := range []Out{{V: 1, Dur: 2 * D}, {Err: E1, Dur: D / 2}, {V: 0, Dur: 5 * D, Coop: true}} {
+				for _, rest := range []Out{{V: 1, Dur: D}, {Err: E1, Dur: 5 * D, Coop: true}} {
+					add("delayfunc/"+cn, []Spec{H}, []Out{first, rest, {V: 1, Dur: D / 2}}, bound)
+				}
+			}
+		}
+	}
 	// placements
 	H1 := Spec{Kind: KHedge, MaxHedges: 1, HDelay: D}
 	H2 := Spec{Kind: KHedge, MaxHedges: 2, HDelay: D, Cancel: []Cond{{K: "result", V: 1}}}
@@ -161,8 +172,8 @@ func init() {
 		Property:  "C09",
 		Technique: "stateless schedule exploration (deviation-bounded, happens-before state cache) of the real hedge executor and its attempt threads under a virtual clock, over every assignment of durations and outcomes to the attempts",
 		Rule: "one execution = one complete schedule of a hedged execution whose attempts take scripted durations (0, delay-1, delay, delay+1, 3*delay, until cancelled) and outcomes; " +
-			"every assignment for maxHedges 1 (and 2 over a smaller alphabet in the quick tier) x four cancel-condition configurations (five for maxHedges 1: one registers two errors in one call), plus placements inside retry/timeout/fallback, including every four-outcome script over a four-element alphabet for a hedge entered twice by a retry under the three non-default cancel conditions; distinct = distinct observation logs",
-		Assume: []string{"sequentially consistent interleavings at synchronisation granularity", "fixed hedge delay; delay functions are exercised by C13-style enumeration only through the fixed builder",
+			"every assignment for maxHedges 1 (and 2 over a smaller alphabet in the quick tier) x four cancel-condition configurations (five for maxHedges 1: one registers two errors in one call), plus delay functions whose value varies within one pass ({0,3D}, {D,0}, {3D,D}, {0,0}) and placements inside retry/timeout/fallback, including every four-outcome script over a four-element alphabet for a hedge entered twice by a retry under the three non-default cancel conditions; distinct = distinct observation logs",
+		Assume: []string{"sequentially consistent interleavings at synchronisation granularity", "hedge delays: fixed, and four delay functions whose value depends on the number of hedges started",
 			"instrumentation by source rewriting preserves semantics (DESIGN.md §2)"},
 		Units: func(tier string) []Unit {
 			if tier == "thorough" {
